@@ -127,6 +127,16 @@ impl Bytes {
     #[verifier::external_body]
     pub fn as_ref(&self) -> (r: &[u8]) ensures r@ == self@ { unimplemented!() }
 
+    // <[u8]>::{len, is_empty, get, first, last} through Deref
+    #[verifier::external_body]
+    pub fn len(&self) -> (r: usize) ensures r == self@.len() { unimplemented!() }
+    #[verifier::external_body]
+    pub fn is_empty(&self) -> (r: bool) ensures r == (self@.len() == 0) { unimplemented!() }
+    #[verifier::external_body]
+    pub fn get(&self, i: usize) -> (r: Option<&u8>)
+        ensures i < self@.len() ==> r == Some(&self@[i as int]), i >= self@.len() ==> r.is_none(),
+    { unimplemented!() }
+
     /// panics if `at > len`
     #[verifier::external_body]
     pub fn split_to(&mut self, at: usize) -> (r: Bytes)
